@@ -245,8 +245,12 @@ class Question(object):
             if error is not None:
                 self._write_error(io, error)
 
+            # Errors raised while reading the answer (e.g. the end of the
+            # input) are not validation errors and must not be retried
+            answer = interviewer()
+
             try:
-                return self._validator(interviewer())
+                return self._validator(answer)
             except Exception as e:
                 error = e
 
